@@ -128,6 +128,10 @@ impl<R: Rng> GraphState<R> {
         state: &mut [bool],
         cumulative_edge_weights: Option<(&[f64], f64)>,
     ) {
+        if edges.is_empty() {
+            // Nothing to flip on a graph without edges (biases only).
+            return;
+        }
         let indx_edge = if let Some((cumulative_edge_weights, totalw)) = cumulative_edge_weights {
             let p = rng.gen_range(0. ..totalw);
             let indx = cumulative_edge_weights
